@@ -1431,6 +1431,9 @@ impl Family for C18Family {
         let trailing = r.bytes(tl);
         (serde_json::to_value(C18Plan { case, trailing, io }).expect("plan"), seed)
     }
+    fn records_decisions(&self) -> bool {
+        false
+    }
     fn exec(&self, plan: &Value, sched: &Sched, _record: bool) -> Outcome {
         let Ok(plan) = serde_json::from_value::<C18Plan>(plan.clone()) else { return Outcome::default() };
         run_c18(&plan, sched)
